@@ -1,6 +1,7 @@
 import Driver.History
 import Driver.Copy
 import Driver.Api
+import Driver.Deriv
 /-! Model driver.  Single-line requests: first token selects the layer.
 Multi-line requests: `begin <layer>` … `end`. -/
 
@@ -17,6 +18,7 @@ def dispatch (toks : List String) : List String :=
 inductive Mode
   | idle
   | api (q : Driver.Api.Req)
+  | deriv (q : Driver.Deriv.Req)
 
 partial def loop (h : IO.FS.Stream) (out : IO.FS.Stream) (m : Mode) : IO Unit := do
   let line ← h.getLine
@@ -24,6 +26,7 @@ partial def loop (h : IO.FS.Stream) (out : IO.FS.Stream) (m : Mode) : IO Unit :=
   let toks := tokens line
   match m, toks with
   | .idle, ["begin", "api"] => loop h out (.api {})
+  | .idle, ["begin", "deriv"] => loop h out (.deriv {})
   | .idle, _ =>
     for l in dispatch toks do out.putStrLn l
     loop h out .idle
@@ -32,6 +35,11 @@ partial def loop (h : IO.FS.Stream) (out : IO.FS.Stream) (m : Mode) : IO Unit :=
     out.putStrLn "end"
     loop h out .idle
   | .api q, _ => loop h out (.api (Driver.Api.feed q toks))
+  | .deriv q, ["end"] =>
+    for l in Driver.Deriv.finish q do out.putStrLn l
+    out.putStrLn "end"
+    loop h out .idle
+  | .deriv q, _ => loop h out (.deriv (Driver.Deriv.feed q toks))
 
 def main : IO Unit := do
   let out ← IO.getStdout
